@@ -182,6 +182,18 @@ of_status_t	of_ldpc_staircase_set_fec_parameters (of_ldpc_staircase_cb_t*	ofcb,
 			params->N1))
 		goto error;
 	}
+	if (params->nb_source_symbols == 0 || params->nb_repair_symbols == 0 || params->encoding_symbol_length == 0)
+	{
+		OF_PRINT_ERROR(("of_ldpc_staircase_set_fec_parameters: ERROR, nb_source_symbols, nb_repair_symbols and encoding_symbol_length must all be strictly positive\n"))
+		goto error;
+	}
+	if (params->prng_seed < 1 || params->prng_seed > 0x7FFFFFFE)
+	{
+		/* otherwise of_rfc5170_srand() ignores the seed and the code depends on the previous PRNG state */
+		OF_PRINT_ERROR(("of_ldpc_staircase_set_fec_parameters: ERROR, invalid prng_seed (%d), must be in {1..0x7FFFFFFE}\n",
+			params->prng_seed))
+		goto error;
+	}
 	if ((ofcb->nb_source_symbols = params->nb_source_symbols) > ofcb->max_nb_source_symbols)
 	{
 		OF_PRINT_ERROR(("of_ldpc_staircase_set_fec_parameters: ERROR, invalid nb_source_symbols parameter (got %d, maximum is %d)\n",
